@@ -10,7 +10,8 @@ ASSUME = [
     "explanation test for the known finding: a mismatch at a path where (or below a directory where) the library's incremental and plain matchers disagree is classified 'explainedByIncrementalMatcher'",
 ]
 PFX = {"C11", "C01"}
-EXPL = {"C11.openDisagreesWithWalk/explainedByIncrementalMatcher", "C11.filteredTransferFailed/explainedByIncrementalMatcher"}
+EXPL = {"C11.openDisagreesWithWalk/explainedByIncrementalMatcher", "C11.filteredTransferFailed/explainedByIncrementalMatcher",
+        "C11.viewDiffersFromNaiveReference/explainedByIncrementalMatcher"}
 
 
 def _sig(evs, clauses):
